@@ -165,41 +165,55 @@ structure Acc where
 def addScore (dbg : Bool) (a : Acc) (w : String) (s : Fr) : Acc :=
   ⟨Fr.add a.score s, if !s.isZero && dbg then a.what ++ [w] else a.what⟩
 
-/-- score of one candidate inside `scoreLine` (the body of `for i, m := range ms`) -/
-def candScore (dc : DocCtx) (dbg : Bool) (m : Cand) : Acc :=
-  let data := if m.fileName then dc.fname else dc.data
+/-- word-boundary part of the body of `for i, m := range ms` in `scoreLine` -/
+def wordStage (dbg : Bool) (data : Bytes) (m : Cand) (a : Acc) : Acc :=
   let e := m.off + m.sz
   let startBoundary := decide (m.off < data.length) &&
     (m.off == 0 || byteClass (data.getD (m.off - 1) 0) != byteClass (data.getD m.off 0))
   let endBoundary := decide (e > 0) &&
     (e == data.length || byteClass (data.getD (e - 1) 0) != byteClass (data.getD e 0))
-  let a : Acc := ⟨.zero, []⟩
-  let a := if startBoundary && endBoundary then addScore dbg a "WordMatch" scoreWordMatch
-           else if startBoundary || endBoundary then addScore dbg a "PartialWordMatch" scorePartialWordMatch
-           else a
-  let a :=
-    if m.fileName then
-      let sep := lastIndexByte data 47
-      let startMatch := (m.off : Int) == sep + 1
-      let endMatch := e == data.length
-      if startMatch && endMatch then addScore dbg a "Base" scoreBase
-      else if startMatch || endMatch then addScore dbg a "EdgeBase" (Fr.div (Fr.add scoreBase scorePartialBase) (.ofNat 2))
-      else if sep < (m.off : Int) then addScore dbg a "InnerBase" scorePartialBase
-      else a
-    else match findSymbol dc m with
-      | none => a
-      | some (sec, ks) =>
-        let startMatch := sec.start == m.off
-        let endMatch := sec.stop == e
-        let a := if startMatch && endMatch then addScore dbg a "Symbol" scoreSymbol
-                 else if startMatch || endMatch then addScore dbg a "EdgeSymbol" (Fr.div (Fr.add scoreSymbol scorePartialSymbol) (.ofNat 2))
-                 else addScore dbg a "OverlapSymbol" scorePartialSymbol
-        match ks with
-        | none => a
-        | some k => addScore dbg a "kind" k
+  if startBoundary && endBoundary then addScore dbg a "WordMatch" scoreWordMatch
+  else if startBoundary || endBoundary then addScore dbg a "PartialWordMatch" scorePartialWordMatch
+  else a
+
+/-- `if m.fileName { … }`: base-name scoring -/
+def baseStage (dbg : Bool) (data : Bytes) (m : Cand) (a : Acc) : Acc :=
+  let e := m.off + m.sz
+  let sep := lastIndexByte data 47
+  let startMatch := (m.off : Int) == sep + 1
+  let endMatch := e == data.length
+  if startMatch && endMatch then addScore dbg a "Base" scoreBase
+  else if startMatch || endMatch then addScore dbg a "EdgeBase" (Fr.div (Fr.add scoreBase scorePartialBase) (.ofNat 2))
+  else if sep < (m.off : Int) then addScore dbg a "InnerBase" scorePartialBase
+  else a
+
+/-- `else if sec, si, ok := p.findSymbol(m); ok { … }`: symbol scoring -/
+def symStage (dbg : Bool) (dc : DocCtx) (m : Cand) (a : Acc) : Acc :=
+  match findSymbol dc m with
+  | none => a
+  | some (sec, ks) =>
+    let e := m.off + m.sz
+    let startMatch := sec.start == m.off
+    let endMatch := sec.stop == e
+    let a := if startMatch && endMatch then addScore dbg a "Symbol" scoreSymbol
+             else if startMatch || endMatch then addScore dbg a "EdgeSymbol" (Fr.div (Fr.add scoreSymbol scorePartialSymbol) (.ofNat 2))
+             else addScore dbg a "OverlapSymbol" scorePartialSymbol
+    match ks with
+    | none => a
+    | some k => addScore dbg a "kind" k
+
+/-- "scoreWeight != 1 means it affects score" -/
+def weightStage (dbg : Bool) (m : Cand) (a : Acc) : Acc :=
   if !epsilonEqualsOne m.weight then
     ⟨Fr.mul a.score m.weight, if dbg then a.what ++ ["boost"] else a.what⟩
   else a
+
+/-- score of one candidate inside `scoreLine` (the body of `for i, m := range ms`) -/
+def candScore (dc : DocCtx) (dbg : Bool) (m : Cand) : Acc :=
+  let data := if m.fileName then dc.fname else dc.data
+  let a := wordStage dbg data m ⟨.zero, []⟩
+  let a := if m.fileName then baseStage dbg data m a else symStage dbg dc m a
+  weightStage dbg m a
 
 /-- `scoreLine` without BM25: the best candidate (first one wins ties), debug labels only when `dbg` -/
 def scoreLineClassic (dc : DocCtx) (dbg : Bool) (ms : List Cand) : Acc :=
@@ -257,22 +271,26 @@ structure ChunkSt where
   cur : Int
   deriving Repr
 
+def lineOf (dc : DocCtx) (m : Cand) : Int := if m.fileName then -1 else (atOffset dc.nls m.off : Nat)
+
+/-- one iteration of `for i, m := range ms` in `scoreChunk` -/
+def chunkStep (dc : DocCtx) (bm25 dbg : Bool) (ms : List Cand) (i : Nat) (m : Cand) (st : ChunkSt) : ChunkSt :=
+  let ln := lineOf dc m
+  let st :=
+    if i != 0 && ln != st.cur then
+      let sc := scoreLine dc bm25 dbg ((ms.drop st.start).take (i - st.start)) st.cur
+      let st := if Fr.lt st.best.score sc.score then { st with best := sc, bestLine := st.cur } else st
+      { st with start := i }
+    else st
+  { st with cur := ln }
+
+def chunkGo (dc : DocCtx) (bm25 dbg : Bool) (ms : List Cand) : Nat → List Cand → ChunkSt → ChunkSt
+  | _, [], st => st
+  | i, m :: rest, st => chunkGo dc bm25 dbg ms (i + 1) rest (chunkStep dc bm25 dbg ms i m st)
+
 /-- `scoreChunk`: score of the best line of the chunk and its line number -/
 def scoreChunk (dc : DocCtx) (bm25 dbg : Bool) (ms : List Cand) : Acc × Int :=
-  let lineOf (m : Cand) : Int := if m.fileName then -1 else (atOffset dc.nls m.off : Nat)
-  let rec go (i : Nat) (rest : List Cand) (st : ChunkSt) : ChunkSt :=
-    match rest with
-    | [] => st
-    | m :: rest' =>
-      let ln := lineOf m
-      let st :=
-        if i != 0 && ln != st.cur then
-          let sc := scoreLine dc bm25 dbg ((ms.drop st.start).take (i - st.start)) st.cur
-          let st := if Fr.lt st.best.score sc.score then { st with best := sc, bestLine := st.cur } else st
-          { st with start := i }
-        else st
-      go (i + 1) rest' { st with cur := ln }
-  let st := go 0 ms ⟨⟨.zero, []⟩, 0, 0, -1⟩
+  let st := chunkGo dc bm25 dbg ms 0 ms ⟨⟨.zero, []⟩, 0, 0, -1⟩
   let last := scoreLine dc bm25 dbg (ms.drop st.start) st.cur
   let (best, bestLine) := if Fr.lt st.best.score last.score then (last, st.cur) else (st.best, st.bestLine)
   (⟨best.score, if dbg then best.what ++ ["line"] else []⟩, bestLine)
